@@ -141,6 +141,7 @@ func DeepPanicSite(stack string) string {
 }
 
 var reIfaceConv = regexp.MustCompile(`interface \{\} is [^,]+, not `)
+var reIfaceConv3 = regexp.MustCompile(`interface conversion: \S+ is not (\S+): missing method \S+`)
 var reIfaceConv2 = regexp.MustCompile(`interface conversion: [^ ]+ is [^,]+, not `)
 
 // PanicSig is panic:<frame that raised the panic>:<message with numbers, quoted text and the dynamic
@@ -148,6 +149,7 @@ var reIfaceConv2 = regexp.MustCompile(`interface conversion: [^ ]+ is [^,]+, not
 func PanicSig(stack, value string, strip func(string) string) string {
 	msg := reIfaceConv.ReplaceAllString(value, "interface {} is _, not ")
 	msg = reIfaceConv2.ReplaceAllString(msg, "interface conversion: _ is _, not ")
+	msg = reIfaceConv3.ReplaceAllString(msg, "interface conversion: _ is not $1: missing method _")
 	return NoSpace("panic:" + DeepPanicSite(stack) + ":" + strip(msg))
 }
 
